@@ -197,9 +197,15 @@ fn ident(r: &mut Rng, used: &mut BTreeSet<String>) -> String {
 fn prim(r: &mut Rng) -> &'static str {
     ["u8", "u16", "u32", "u64", "s8", "s16", "s32", "s64", "f32", "f64", "bool", "char", "string"][r.pick(13)]
 }
+/// maps and fixed-length lists are used by a quarter of the synthetic worlds only (a backend
+/// that does not support them fails for the whole world)
+static mut NEWER_TYPES: bool = false;
 fn ty(r: &mut Rng, named: &[String], depth: u32, async_ok: bool) -> String {
-    let k = r.pick(if depth > 2 { 4 } else { 12 });
+    let newer = unsafe { NEWER_TYPES };
+    let k = r.pick(if depth > 2 { 4 } else if newer { 14 } else { 12 });
     match k {
+        12 => format!("map<{}, {}>", ["u32", "string", "u8", "char", "s64"][r.pick(5)], ty(r, named, depth + 1, false)),
+        13 => format!("list<{}, {}>", prim(r), 1 + r.pick(6)),
         0..=2 => prim(r).to_string(),
         3 => {
             if named.is_empty() {
@@ -225,6 +231,7 @@ fn ty(r: &mut Rng, named: &[String], depth: u32, async_ok: bool) -> String {
 }
 fn synth_world(seed: u64, async_ok: bool) -> String {
     let mut r = Rng(seed);
+    unsafe { NEWER_TYPES = seed % 4 == 3 };
     let mut s = String::from("package verif:synth;\n\n");
     // foreign packages whose interfaces share their last name segment (so that
     // per-package import lists have ties on it)
